@@ -150,7 +150,16 @@ def run(tier, replay=None):
         for st in sites:
             bl = [b for b, (fn, line, cnt, cal) in enumerate(census) if (fn, line) == st and cnt]
             edge += [(bl[0], 1), (bl[0], census[bl[0]][2]), (bl[-1], 1)]
-        chosen = sorted(set(chosen) | set(critical) | set(edge))
+        # (c) block entries (call index 0: before anything in the block has run) where the block body starts with a simple statement
+        ent = base.get("entries") or []
+        entry = [(b, 0) for b, e in enumerate(ent) if e and e[1]]
+        by_entry_site = {}
+        for b, c in entry:
+            by_entry_site.setdefault((census[b][0], census[b][1]), []).append((b, 0))
+        entry_chosen = []
+        for st, v in sorted(by_entry_site.items()):
+            entry_chosen += v if tier == "thorough" else sorted(set(v[:2] + v[-1:] + rng.sample(v, min(6, len(v)))))
+        chosen = sorted(set(chosen) | set(critical) | set(edge) | set(entry_chosen))
         jobs = [[p] for p in chosen]
         if tier == "thorough":        # double faults: pairs in different blocks
             for _ in range(150):
@@ -171,7 +180,7 @@ def run(tier, replay=None):
             for tg, sc, rec in zip(batch, scr, recs):
                 if rec is None:
                     raise RuntimeError("fault worker thread failed")
-                where = ["%s:%s call#%d in %s" % (census[b][0], census[b][1], c, next((f[2] for f in rec["fired"] if f[0] == b and f[1] == c), "?")) for b, c in tg]
+                where = ["%s:%s %s in %s" % (census[b][0], census[b][1], "call#%d" % c if c else "block entry", next((f[2] for f in rec["fired"] if f[0] == b and f[1] == c), "?")) for b, c in tg]
                 key = "%s:n%d:%s" % (name, n, "+".join("%s@%s" % (census[b][0], census[b][1]) for b, c in tg))
                 if len(rec["fired"]) < len(tg):
                     outcomes["not_fired"] += 1          # the run diverged before the second placement: nothing to judge
@@ -209,7 +218,7 @@ def run(tier, replay=None):
                     r.violation("unsound:" + key + ":" + ",".join(cl), "after a timeout injected at %s the library violates %s: %s" % (where, cl, details[i]),
                                 {"runname": name, "n": n, "targets": tg, "where": where})
         r.add("faults_%s_n%d" % (name, n), evaluations=len(jobs), nontrivial=outcomes["different_library"], traces=len(jobs), blocks=len(census),
-              call_points=len(places), sites=len(sites), critical_window_placements=len(critical), exhaustive_single_faults=exhaustive, **outcomes)
+              call_points=len(places), sites=len(sites), critical_window_placements=len(critical), block_entry_placements=len(entry_chosen), exhaustive_single_faults=exhaustive, **outcomes)
         r.sample({"library": name, "n": n, "time_limited_blocks": len(census), "call_points": len(places), "sites": sites[:6], "example_placement": jobs[len(jobs) // 2]})
     r.assumptions += ["Dedup.tla (design level): with one time-limited block per round a timeout can never leave a stale substitution (make_changes commits only when the string changed); "
                       "with two blocks it can, and CheckResults repairs it - checked by TLC in each run"]
